@@ -11,3 +11,11 @@ import run
 mir, src, h = run.prepare_mir()
 print("MIR ready:", h, len(mir.splitlines()), "lines")
 PY
+# warm the Kani target directory (C13): first build of the crate under cargo-kani takes a few minutes
+python3 - <<'PY' || true
+import sys
+sys.path.insert(0, 'checks'); sys.path.insert(0, 'mir2c')
+import kani_run, c13
+r = kani_run.run("C13", c13.KANI, timeout=2400)
+print("Kani warm-up:", [(x["name"], x["status"]) for x in r])
+PY
